@@ -252,49 +252,47 @@ func c03Room(p *packet.Packet, tpd bool) int {
 	return al + free
 }
 
-func c03Getters(p *packet.Packet) Ev {
+func c03Getters(p *packet.Packet) Ev { return c03GettersO(nil, p) }
+
+// c03GettersO queries the method-style and function-style getters in the order the event's key selects (nil: as listed).
+func c03GettersO(e Ev, p *packet.Packet) Ev {
 	g := Ev{}
 	af, err := p.AdaptationField()
 	if err != nil {
 		return Ev{"noaf": true}
 	}
-	g["m_len"] = af.Length()
-	g["m_disc"], _ = af.Discontinuity()
-	g["m_rai"], _ = af.RandomAccess()
-	g["m_espi"], _ = af.ElementaryStreamPriority()
-	g["m_haspcr"], _ = af.HasPCR()
-	g["m_hasopcr"], _ = af.HasOPCR()
-	g["m_hassplice"], _ = af.HasSplicingPoint()
-	g["m_hastpd"], _ = af.HasTransportPrivateData()
-	g["m_hasafe"], _ = af.HasAdaptationFieldExtension()
-	v, e1 := af.PCR()
-	g["m_pcr"], g["m_pcr_err"] = W64(v), e1 != nil
-	v, e1 = af.OPCR()
-	g["m_opcr"], g["m_opcr_err"] = W64(v), e1 != nil
-	sc, e2 := af.SpliceCountdown()
-	g["m_splice"], g["m_splice_err"] = sc&0xff, e2 != nil
-	t, e3 := af.TransportPrivateData()
-	g["m_tpd"], g["m_tpd_err"] = B(t), e3 != nil
-	x, e4 := af.AdaptationFieldExtension()
-	g["m_afe"], g["m_afe_err"] = B(x), e4 != nil
-
-	g["f_len"] = int(adaptationfield.Length(p))
-	g["f_disc"] = adaptationfield.IsDiscontinuous(p)
-	g["f_rai"] = adaptationfield.IsRandomAccess(p)
-	g["f_espi"] = adaptationfield.IsESHigherPriority(p)
-	g["f_haspcr"] = adaptationfield.HasPCR(p)
-	g["f_hasopcr"] = adaptationfield.HasOPCR(p)
-	g["f_hassplice"] = adaptationfield.HasSplicingPoint(p)
-	g["f_hastpd"] = adaptationfield.HasTransportPrivateData(p)
-	g["f_hasafe"] = adaptationfield.HasAdaptationFieldExtension(p)
-	b, e5 := adaptationfield.PCR(p)
-	g["f_pcr"], g["f_pcr_err"] = B(b), e5 != nil
-	b, e5 = adaptationfield.OPCR(p)
-	g["f_opcr"], g["f_opcr_err"] = B(b), e5 != nil
-	s8, e6 := adaptationfield.SpliceCountdown(p)
-	g["f_splice"], g["f_splice_err"] = int(s8), e6 != nil
-	b, e5 = adaptationfield.TransportPrivateData(p)
-	g["f_tpd"], g["f_tpd_err"] = B(b), e5 != nil
+	inOrder(e,
+		func() { g["m_len"] = af.Length() },
+		func() { g["m_disc"], _ = af.Discontinuity() },
+		func() { g["m_rai"], _ = af.RandomAccess() },
+		func() { g["m_espi"], _ = af.ElementaryStreamPriority() },
+		func() { g["m_haspcr"], _ = af.HasPCR() },
+		func() { g["m_hasopcr"], _ = af.HasOPCR() },
+		func() { g["m_hassplice"], _ = af.HasSplicingPoint() },
+		func() { g["m_hastpd"], _ = af.HasTransportPrivateData() },
+		func() { g["m_hasafe"], _ = af.HasAdaptationFieldExtension() },
+		func() { v, e1 := af.PCR(); g["m_pcr"], g["m_pcr_err"] = W64(v), e1 != nil },
+		func() { v, e1 := af.OPCR(); g["m_opcr"], g["m_opcr_err"] = W64(v), e1 != nil },
+		func() { sc, e2 := af.SpliceCountdown(); g["m_splice"], g["m_splice_err"] = sc&0xff, e2 != nil },
+		func() { t, e3 := af.TransportPrivateData(); g["m_tpd"], g["m_tpd_err"] = B(t), e3 != nil },
+		func() { x, e4 := af.AdaptationFieldExtension(); g["m_afe"], g["m_afe_err"] = B(x), e4 != nil },
+		func() { g["f_len"] = int(adaptationfield.Length(p)) },
+		func() { g["f_disc"] = adaptationfield.IsDiscontinuous(p) },
+		func() { g["f_rai"] = adaptationfield.IsRandomAccess(p) },
+		func() { g["f_espi"] = adaptationfield.IsESHigherPriority(p) },
+		func() { g["f_haspcr"] = adaptationfield.HasPCR(p) },
+		func() { g["f_hasopcr"] = adaptationfield.HasOPCR(p) },
+		func() { g["f_hassplice"] = adaptationfield.HasSplicingPoint(p) },
+		func() { g["f_hastpd"] = adaptationfield.HasTransportPrivateData(p) },
+		func() { g["f_hasafe"] = adaptationfield.HasAdaptationFieldExtension(p) },
+		func() { b, e5 := adaptationfield.PCR(p); g["f_pcr"], g["f_pcr_err"] = B(b), e5 != nil },
+		func() { b, e5 := adaptationfield.OPCR(p); g["f_opcr"], g["f_opcr_err"] = B(b), e5 != nil },
+		func() {
+			s8, e6 := adaptationfield.SpliceCountdown(p)
+			g["f_splice"], g["f_splice_err"] = int(s8), e6 != nil
+		},
+		func() { b, e5 := adaptationfield.TransportPrivateData(p); g["f_tpd"], g["f_tpd_err"] = B(b), e5 != nil },
+	)
 	return g
 }
 
@@ -404,7 +402,7 @@ func (c03) Exec(h []Ev) []Ev {
 			e["get"] = Ev{}
 			continue
 		}
-		gp := guard(func() { e["get"] = c03Getters(&p) })
+		gp := guard(func() { e["get"] = c03GettersO(e, &p) })
 		if gp != "" {
 			e["panic"] = "getter-" + gp
 			e["get"] = Ev{}
